@@ -121,8 +121,7 @@ def right_variant(e):
 
 # waitUntil waits (forever, by design) for a condition that never yields true: only conditions that do are in the claim
 POOL_OVERRIDE = {('U', 'waituntil', 'CODE'): ['{ true }', '{ c9_n = c9_n + 1; c9_n > 2 }'],
-                 # sqrt(x^2+y^2+z^2) == 0 over three unconstrained floats is beyond z3's FP solver within the query timeout: at most two symbolic components
-                 ('U', 'vectornormalized', 'ARRAY'): ['[]', '[hf0__]', '[hf0__, hf1__]', '[hf0__, hf1__, 0]', '[hf0__, 3, 4]', '[0, 0, 0]', '[1e38, 1e38, 1e38]', '[1, 2, 3]', '["a", 1, 2]', '[1, 2, 3, 4]', 'c9_big', '[nil]']}
+                 ('U', 'vectornormalized', 'ARRAY'): ['[]', '[hf0__]', '[hf0__, hf1__]', '[hf0__, hf1__, hf2__]', '[hf0__, 3, 4]', '[0, 0, 0]', '[1, 2, 3]', '["a", 1, 2]', '[1, 2, 3, 4]', 'c9_big', '[nil]']}
 def combos(sig, tier):
     kind, name, lt, rtp = sig
     if kind == 'N': return [(None, None)]
@@ -150,6 +149,8 @@ def program(sig, l, r):
     if kind == 'U': return 'private _r = [%s (%s)]; trace__ 1;' % (name, r)
     return 'private _r = [(%s) %s (%s)]; trace__ 1;' % (l, name, r)
 
+# sqrt(x*x + ...) == 0 in double precision does not come back from z3's FP solver within the query timeout: components range over a boundary pool
+POOLED_OPS = {'vectornormalized': [0.0, 1.0, -2.5, 1e-30, 1e20, 3e38, math.inf, -math.inf, math.nan]}
 FOR_BOUNDS = [-1.0, 0.0, 0.5, 2.0, 3.0, math.nan]; FOR_STEPS = [-1.0, 0.5, 2.0, 1e30, math.nan]     # step 0 and an infinite end loop forever by design
 def mk_holes(h, text, pooled=None):
     hf = {}; hb = {}
@@ -173,6 +174,7 @@ def sig_case(h, vm, sig, cs):
         l, r = cs[i]
         text = program(sig, l, r)
         pooled = {i: (FOR_STEPS if 'step hf%d__' % i in l else FOR_BOUNDS) for i in range(3)} if sig[2] == 'FOR' and sig[1] == 'do' else None
+        if sig[1] in POOLED_OPS: pooled = {i: POOLED_OPS[sig[1]] for i in range(6)}
         mk_holes(h, text, pooled); rt.PS.cut_base = rt.PS.nbranch
         h.reset_obs(); rt.STEP[0] = 0
         res = h.run(vm, text)
